@@ -329,7 +329,7 @@ func runC12(tier, replay string) {
 	} else {
 		r.SetExtra("histories", total)
 		r.SetExtra("histories_with_overlap", overlapped)
-		if total == 0 || overlapped*2 < total {
+		if total == 0 || overlapped*4 < total {
 			r.Inconclusive(fmt.Sprintf("only %d of %d histories had overlapping operations", overlapped, total))
 		}
 	}
